@@ -2,9 +2,16 @@
 # runs every registered quick (or thorough) check on /repo as it is; prints one line per check
 tier=${1:-quick}
 cd "$(dirname "$(readlink -f "$0")")/.."
+# the manifest's setup step (offline installs: hypothesis into /venv if missing, atheris into ./.deps for the coverage-guided tier)
+bash -c "$(python3 -c "import json;print(json.load(open('MANIFEST.json'))['setup_cmd'])")" >/dev/null 2>&1
 for p in $(python3 -c "import json;print(' '.join(c['property_id'] for c in json.load(open('MANIFEST.json'))['checks']))"); do
   s=$(date +%s)
   out=$(PYTHONHASHSEED=0 PYTHONDONTWRITEBYTECODE=1 /venv/bin/python -m vf.run $p --tier $tier 2>&1); rc=$?
   e=$(date +%s)
-  echo "$p rc=$rc $((e-s))s $(echo "$out" | grep -E "VIOLATION|HARNESS|degenerate" | head -2 | cut -c1-200)"
+  echo "$p rc=$rc $((e-s))s $(echo "$out" | grep -E "VIOLATION|HARNESS|degenerate|INCONCLUSIVE" | head -2 | cut -c1-200) $(python3 -c "
+import json
+try:
+    f=json.load(open('evidence/$p.json'))['coverage'].get('fuzz')
+    print('fuzz:%s/%s' % (f.get('evaluations'), f.get('distinct_nontrivial')) if f else '')
+except Exception: pass")"
 done
